@@ -1,8 +1,8 @@
 (* C12 - Agents affect each other only through the shared network, never via views.
-   Statements only; proofs in Proofs/WorldInv.v. *)
+   Statements only; proofs in Proofs/WorldInv.v and Proofs/CoordIsolation.v. *)
 From stdpp Require Import gmap.
 From Coq Require Import ZArith NArith.
-From NSG Require Import Model.World Proofs.WorldStep Proofs.WorldInv.
+From NSG Require Import Model.Coord Proofs.CoordIsolation Model.World Proofs.WorldStep Proofs.WorldInv.
 
 (* an action of agent b leaves the view of every other agent exactly as it was *)
 Theorem C12_own : forall s b a ag, ag <> b -> snd (mstep s b a) !! ag = snd s !! ag.
@@ -44,7 +44,16 @@ Proof.
   split; [reflexivity|]. vm_compute. intros H. discriminate H.
 Qed.
 
+(* the coordinator adds no other channel: whatever message the handler of address c0 works on, the record of every other
+   agent (view, counters, status, reward, trajectory) is exactly as before (for any world model, hence for the whole game);
+   only the reward and reset tasks touch several agents at once, and they do not look at views *)
+Theorem C12_coordinator_no_channel : forall (V W G : Type) (wstep : W -> V -> G -> W * V) (winit : W -> role -> W * V)
+    (goal : role -> V -> bool) (detect : list G -> G -> bool) (cfg : config) (s : @state V W G) id c0 (m : @msg G) c,
+  c <> c0 -> alookup c (agents (@h_start V W G wstep winit goal detect cfg s id c0 m)) = alookup c (agents s).
+Proof. exact @h_start_others. Qed.
+
 Print Assumptions C12_own.
 Print Assumptions C12_no_gift.
 Print Assumptions C12_channel.
 Print Assumptions C12_world_changes.
+Print Assumptions C12_coordinator_no_channel.
